@@ -363,4 +363,130 @@ theorem af_inv_swap (p : PoolD) (ticks : TickMap) (arrays : List Int) (amount li
                 | true => rw [ht rfl]; exact hs1
                 | false => rw [hf rfl]; exact hs1
 
+/-! ### every step of every swap is charged the rate of a tick group -/
+
+/-- the rate of tick group `g` when the volatility reference is `volRef` at reference group `gRef`: static rate plus
+    the adaptive rate of the group's accumulator  min(volRef + 10000·|gRef − g|, maximum),  capped at the hard limit -/
+def groupRate (staticRate : Nat) (c : AfConstants) (volRef : Nat) (gRef g : Int) : Nat :=
+  let acc := min (volRef + (gRef - g).natAbs * VOLATILITY_ACCUMULATOR_SCALE_FACTOR) c.maxVolAcc
+  let t := staticRate + computeAdaptiveFeeRate c { volAcc := acc }
+  if t > FEE_RATE_HARD_LIMIT then FEE_RATE_HARD_LIMIT else t
+
+theorem groupRate_bounds (r : Nat) (c : AfConstants) (vr : Nat) (gr g : Int) (hr : r ≤ FEE_RATE_HARD_LIMIT) :
+    r ≤ groupRate r c vr gr g ∧ groupRate r c vr gr g ≤ FEE_RATE_HARD_LIMIT := by
+  unfold groupRate
+  simp only []
+  split <;> omega
+
+/-- what stays fixed in the fee manager during a whole swap -/
+def Frozen (r0 : Nat) (c0 : AfConstants) (vr : Nat) (gr : Int) (f : FeeMgr) : Prop :=
+  ∃ m, f = .adaptive m ∧ m.staticRate = r0 ∧ m.c = c0 ∧ m.v.volRef = vr ∧ m.v.groupIndexRef = gr
+
+theorem frozen_updateVolAcc (r0 : Nat) (c0 : AfConstants) (vr : Nat) (gr : Int) (f : FeeMgr) (h : Frozen r0 c0 vr gr f) :
+    Frozen r0 c0 vr gr f.updateVolAcc := by
+  obtain ⟨m, rfl, a, b, c, d⟩ := h
+  exact ⟨_, rfl, a, b, c, d⟩
+
+theorem frozen_advance (r0 : Nat) (c0 : AfConstants) (vr : Nat) (gr : Int) (f : FeeMgr) (h : Frozen r0 c0 vr gr f) :
+    Frozen r0 c0 vr gr f.advance := by
+  obtain ⟨m, rfl, a, b, c, d⟩ := h
+  exact ⟨_, rfl, a, b, c, d⟩
+
+theorem frozen_afterSkip (r0 : Nat) (c0 : AfConstants) (vr : Nat) (gr : Int) (f f' : FeeMgr) (p np : Nat) (nt : Int)
+    (h : Frozen r0 c0 vr gr f) (hs : f.advanceAfterSkip p np nt = .ok f') : Frozen r0 c0 vr gr f' := by
+  obtain ⟨m, rfl, a, b, c, d⟩ := h
+  unfold FeeMgr.advanceAfterSkip at hs
+  simp only [] at hs
+  cases hs
+  refine ⟨_, rfl, ?_, ?_, ?_, ?_⟩
+  all_goals simp only []
+  all_goals (repeat' split)
+  all_goals first | exact a | exact b | exact c | exact d
+
+/-- **C14, per step**: on an adaptive-fee pool a step is computed (`compute_swap`) with the rate of the manager's
+    current tick group and recorded with exactly that rate -/
+theorem step_charge (c : SwapCtx) (s s' : SwapSt) (nai : Nat) (nti : Int) (ntp tgt : Nat) (m : AdaptiveMgr)
+    (hm : s.fm = .adaptive m) (h : swapStep c s nai nti ntp tgt = .ok s') :
+    ∃ sc, computeSwap s.remaining (groupRate m.staticRate m.c m.v.volRef m.v.groupIndexRef m.groupIndex) s.liq s.price
+            (s.fm.updateVolAcc.boundedTarget tgt s.liq).1 c.isInput c.aToB = .ok sc ∧
+      s'.steps = (s.liq, groupRate m.staticRate m.c m.v.volRef m.v.groupIndexRef m.groupIndex,
+                  sc.amountIn, sc.amountOut, sc.feeAmount, sc.nextPrice) :: s.steps ∧
+      s'.price = sc.nextPrice := by
+  have hrate : s.fm.updateVolAcc.totalFeeRate = groupRate m.staticRate m.c m.v.volRef m.v.groupIndexRef m.groupIndex := by
+    rw [hm]
+    unfold FeeMgr.updateVolAcc FeeMgr.totalFeeRate groupRate AfVariables.updateVolAcc computeAdaptiveFeeRate
+    rfl
+  unfold swapStep at h
+  simp only [] at h
+  split at h
+  · cases h
+  · rename_i sc hsc
+    split at h
+    · cases h
+    · split at h
+      · cases h
+      · split at h
+        · cases h
+        · split at h
+          · cases h
+          · simp only [Except.ok.injEq] at h
+            subst h
+            rw [hrate] at hsc
+            exact ⟨sc, hsc, by simp only [hrate], rfl⟩
+
+/-- **C14 along a whole swap**: every step of every successful swap of an adaptive-fee pool was charged the rate
+    `groupRate` of SOME tick group, computed from the pool's static rate, the stored constants, and the volatility
+    reference / reference group fixed by `update_reference` at the start of the swap — hence at least the static
+    rate and at most 10 % (`groupRate_bounds`) -/
+theorem swap_steps_charged (p : PoolD) (ticks : TickMap) (arrays : List Int) (amount limit : Nat) (isInput aToB : Bool)
+    (now : Nat) (info : AfInfo) (fuel : Nat) (u : PostSwap)
+    (h : swap p ticks arrays amount limit isInput aToB now (some info) fuel = .ok u) :
+    ∃ v0, info.variables.updateReference (p.tick / (info.constants.groupSize : Int)) now info.constants = .ok v0 ∧
+      ∀ e ∈ u.steps, ∃ g : Int, e.2.1 = groupRate p.feeRate info.constants v0.volRef v0.groupIndexRef g := by
+  unfold swap at h
+  split at h
+  · cases h
+  · split at h
+    · cases h
+    · rename_i rewards _
+      split at h
+      · cases h
+      · rename_i fm hfm
+        split at h
+        · cases h
+        · rename_i s hs
+          -- the manager built at the start
+          unfold FeeMgr.new at hfm
+          simp only [] at hfm
+          split at hfm
+          · cases hfm
+          · rename_i v0 hv0
+            cases hfm
+            refine ⟨v0, hv0, ?_⟩
+            have hP : Frozen p.feeRate info.constants v0.volRef v0.groupIndexRef s.fm ∧
+                ∀ e ∈ s.steps, ∃ g : Int, e.2.1 = groupRate p.feeRate info.constants v0.volRef v0.groupIndexRef g := by
+              refine swapLoop_induct _ (fun st => Frozen p.feeRate info.constants v0.volRef v0.groupIndexRef st.fm ∧
+                ∀ e ∈ st.steps, ∃ g : Int, e.2.1 = groupRate p.feeRate info.constants v0.volRef v0.groupIndexRef g) ?_ fuel _ s none ?_ hs
+              · intro a b nai nti ntp tgt ⟨hf, hst⟩ hstep
+                constructor
+                · rcases swapStep_fm _ _ _ _ _ _ _ hstep with h1 | ⟨q, np, nt, h2⟩
+                  · rw [h1]; exact frozen_advance _ _ _ _ _ (frozen_updateVolAcc _ _ _ _ _ hf)
+                  · exact frozen_afterSkip _ _ _ _ _ _ q np nt (frozen_updateVolAcc _ _ _ _ _ hf) h2
+                · obtain ⟨m, hm, e1, e2, e3, e4⟩ := hf
+                  obtain ⟨sc, _, hsteps, _⟩ := step_charge _ _ _ _ _ _ _ m hm hstep
+                  rw [hsteps]
+                  intro e he
+                  rcases List.mem_cons.mp he with rfl | he
+                  · exact ⟨m.groupIndex, by simp only []; rw [e1, e2, e3, e4]⟩
+                  · exact hst e he
+              · exact ⟨⟨_, rfl, rfl, rfl, rfl, rfl⟩, fun e he => by simp [swapInit] at he⟩
+            unfold swapFinish at h
+            split at h
+            · cases h
+            · split at h
+              · cases h
+              · cases h
+                intro e he
+                exact hP.2 e (List.mem_reverse.mp he)
+
 end WP.C14
